@@ -97,7 +97,7 @@ def _const_node(v):
     return {"k": "lit", "t": "int", "v": v}
 
 
-def run(ctx, w):
+def _run(ctx, w):
     S = shared.screen(w)
     R = shared.roles(w)
     E = w.E
@@ -350,3 +350,10 @@ def closure_pred(w, clo):
     if t[0] == "binop" and "'arg2'" in repr(t[2]) and "'arg1'" in repr(t[3]):
         return flip.get(t[1])
     return None
+
+
+def run(ctx, w):
+    _run(ctx, w)
+    # the commands of this property must first of all be DECODED as specified (selector values, parameter slots, finals)
+    from rules import c03
+    shared.embed(ctx, w, c03.dispatch_rules)
